@@ -83,6 +83,9 @@ class Check:
             else:
                 new.append(v)
         os.makedirs(os.path.join(EVID, 'violations'), exist_ok=True)
+        for old in os.listdir(os.path.join(EVID, 'violations')):
+            if old.startswith(self.pid + '-'):
+                os.remove(os.path.join(EVID, 'violations', old))
         lines = []
         for v in kf:
             lines.append('KNOWN-FINDING: property=%s %s [%s] at %s' % (self.pid, v['what'], v['key'], v['where']))
